@@ -162,6 +162,32 @@ def pathbadgerNames (kind res : String) (exists_ : Bool) : List String :=
     else []
   | _ => []
 
+/-- Boundaries of a complete checkpoint restore with `n` chunks: StartMultipartInsert, `n` chunk
+commits, Finalize, cleanMultipartLocked(false). -/
+def restoreNames (backend : String) (n : Nat) : List String :=
+  let chunk := if backend == "badger" then
+      ["badger.commit.0-before-writes", "badger.commit.1-after-mplog-flush",
+       "badger.commit.2-after-batch-flush", "badger.commit.3-after-meta-commit"]
+    else
+      ["pathbadger.commit.0-before-writes", "pathbadger.commit.1-after-meta-commit",
+       "pathbadger.commit.2-after-batmeta-flush", "pathbadger.commit.3-after-batch-flush"]
+  [backend ++ ".startmp.0-before-writes", backend ++ ".startmp.1-after-meta-commit"] ++
+  (List.replicate n chunk).flatten ++
+  (if backend == "badger" then badgerNames "finalize" false else pathbadgerNames "finalize" "ok" false) ++
+  [backend ++ ".cleanmp.0-before-writes", backend ++ ".cleanmp.1-after-batch-flush",
+   backend ++ ".cleanmp.2-after-meta-commit"]
+
+/-- Model prediction for a crash at boundary `bi` of a badger restore with `n` chunks. Between the
+Finalize's metadata commit and the deletion of the journal the restored version is finalized while
+the journal still exists: reopening removes the journalled nodes
+(`restore_crash_after_finalize_destroys_finalized_version`), and the restore cannot be repeated
+because the version is already finalized. -/
+def badgerRestoreClasses (n bi : Nat) : List String :=
+  let fin2 := 2 + 4 * n + 2
+  if bi < fin2 then ["old+retry-ok", "mid+retry-ok"]
+  else if bi ≤ fin2 + 1 then ["mid+retry-fails"]
+  else ["new"]
+
 /-- What the model predicts an observer sees after a crash at boundary `bi` of a successful
 badger operation (`old`/`mid`/`new`, and whether retrying completes). `loneNonEmpty`: the pruned
 version has a lone root with a non-empty tree. -/
